@@ -1,6 +1,7 @@
 import Driver.Codec
 import Std.Data.HashMap
 import Ucfg.Spec.C20
+import Ucfg.Spec.C17
 /-
   ucfgdrv: reads one protocol case per line on stdin, runs the Lean model's
   executable definitions on it and prints one JSON result line.
@@ -147,11 +148,66 @@ def runCase (std : Stdlib) (c : Json) : R Json := do
   | "intlit" => runIntLit c
   | _ => throw s!"unknown kind {k}"
 
-def runFull (std : Stdlib) (c : Json) : R (Json × Option Json) := do
+partial def parseJ (j : Json) : R Spec.C17.J := do
+  match j with
+  | .null => pure .null
+  | _ =>
+    if let some v := optField j "jb" then pure (.bool (← v.getBool?))
+    else if let some v := optField j "jn" then pure (.num (← v.getStr?))
+    else if let some v := optField j "js" then pure (.str (← v.getStr?))
+    else if let some v := optField j "ja" then pure (.arr (← (← v.getArr?).toList.mapM parseJ))
+    else if let some v := optField j "jo" then
+      let es ← (← v.getArr?).toList.mapM (fun e => do
+        match (← e.getArr?).toList with
+        | [k, x] => pure ((← k.getStr?), (← parseJ x))
+        | _ => throw "bad object entry")
+      pure (.obj es)
+    else throw s!"bad json value {j.compress}"
+
+/-- data equality with integers compared by value across the int64/uint64 carriers -/
+partial def dataNumEq : Data → Data → Bool
+  | .int a, .uint b => a == (b : Int)
+  | .uint a, .int b => (a : Int) == b
+  | .arr a, .arr b => a.length == b.length && (a.zip b).all (fun (x, y) => dataNumEq x y)
+  | .map a, .map b =>
+    a.length == b.length && a.all (fun (k, x) => match b.find? (·.1 == k) with
+      | some (_, y) => dataNumEq x y
+      | none => false)
+  | a, b => dataEq a b
+
+/-- known-finding class D4: a JSON escape that is not a Go escape (`\/`, surrogate halves) -/
+def hasJsonOnlyEscape : List Char → Bool
+  | '\\' :: '\\' :: r => hasJsonOnlyEscape r
+  | '\\' :: '/' :: _ => true
+  | '\\' :: 'u' :: d :: x :: r =>
+    ((d == 'd' || d == 'D') && (x == '8' || x == '9' || x.toLower == 'a' || x.toLower == 'b' ||
+      x.toLower == 'c' || x.toLower == 'd' || x.toLower == 'e' || x.toLower == 'f')) || hasJsonOnlyEscape r
+  | _ :: r => hasJsonOnlyEscape r
+  | [] => false
+
+/-- C17 "json": a JSON document `json`, its text `s`; oracle: parse.Value(s) = the data it denotes -/
+def runJson (std : Stdlib) (c : Json) : R (Json × Option Json × Option String) := do
+  let s ← strField c "s"
+  let j ← parseJ ((optField c "json").getD .null)
+  let model := outcomeJson dataJson (Parse.valueWithConfig std s {})
+  let kf := if hasJsonOnlyEscape s.toList then some "D4" else none
+  let oracle : Option Json ← match optField c "impl" with
+    | none => pure none
+    | some impl =>
+      match optField impl "ok" with
+      | none => pure (some (failOracle "parse.Value rejected (or crashed on) a valid JSON document"))
+      | some okv => do
+        let got ← dataOfJson okv
+        if dataNumEq got (Spec.C17.expected std j) then pure (some okOracle)
+        else pure (some (failOracle "parse.Value returned different data than the JSON document denotes"))
+  pure (model, oracle, kf)
+
+def runFull (std : Stdlib) (c : Json) : R (Json × Option Json × Option String) := do
   let k ← strField c "k"
   match k with
-  | "key" => runKey c
-  | _ => do pure ((← runCase std c), none)
+  | "key" => do let (m, o) ← runKey c; pure (m, o, none)
+  | "json" => runJson std c
+  | _ => do pure ((← runCase std c), none, none)
 
 partial def loop (std : Stdlib) (h : IO.FS.Stream) (out : IO.FS.Stream) : IO Unit := do
   let line ← h.getLine
@@ -164,7 +220,9 @@ partial def loop (std : Stdlib) (h : IO.FS.Stream) (out : IO.FS.Stream) : IO Uni
       | .ok c =>
         let i := (optField c "i").getD .null
         match runFull std c with
-        | .ok (m, o) => Json.mkObj ([("i", i), ("model", m)] ++ (match o with | some x => [("oracle", x)] | none => []))
+        | .ok (m, o, kf) => Json.mkObj ([("i", i), ("model", m)]
+            ++ (match o with | some x => [("oracle", x)] | none => [])
+            ++ (match kf with | some x => [("kf", Json.str x)] | none => []))
         | .error e => Json.mkObj [("i", i), ("drvError", .str e)]
     out.putStrLn res.compress
     out.flush
